@@ -74,6 +74,9 @@ def natDigitsAux : Nat → Nat → Bytes → Bytes
 def natDigits (n : Nat) : Bytes := natDigitsAux 40 n []
 def itoa (v : Int) : Bytes := if v < 0 then 45 :: natDigits v.natAbs else natDigits v.natAbs
 
+/-- Go `int` addition on amd64 wraps around -/
+def wrap64 (v : Int) : Int := (Int64.ofInt v).toInt
+
 def step (cfg : Cfg) (m : KV) : Cmd → KV × Reply
   | .set k body flag rev ts =>
     match AMap.get m k with
@@ -109,7 +112,7 @@ def step (cfg : Cfg) (m : KV) : Cmd → KV × Reply
       else if e.body.length > 22 then (m, .num 0)
       else match parseInt e.body with
         | none => (m, .num 0)
-        | some old => write (e.ver + 1) (old + delta)
+        | some old => write (e.ver + 1) (wrap64 (old + delta))
   | .get k =>
     match AMap.get m k with
     | some e => if e.ver > 0 then (m, .value e.flag e.body) else (m, .miss)
